@@ -9,6 +9,7 @@ Monitor = the property: the honest side never establishes and never Reads when t
 policy requires is lacking."""
 import json
 import os
+import re
 import shutil
 import subprocess
 import time
@@ -30,7 +31,25 @@ SITE_F6 = "internal/handshake/protected_flight.go processFinished"
 SITE_F45 = "internal/handshakecrypto/crypto.go verifyCertificateSignature"
 SITE_F46 = ("internal/flight/flight12/flight4handler.go flight4Parse (SetSession before the Finished check and the "
             "client-auth policy)")
+SITE_NAME = ("internal/flight/flight12/flight5handler.go initializeCipherSuite / internal/handshake/protected_flight.go "
+             "verifyServerIdentity (name given to VerifyServerCert)")
+SITE_EMPTYPSK = ("internal/flight/flight12/flight3handler.go handleServerKeyExchange / flight4handler.go flight4Parse "
+                 "(PSK callback result)")
+SITE_PSKONLY = "config.go effectiveProtocolVersionRange / internal/flight/flight13 (DTLS 1.3 has no PSK mode)"
 MON = "established although the peer lacks the required credential"
+DEVIATION = {"scheme_confusion": "signature-scheme-confusion", "server_name": "ip-literal-server-name-not-verified",
+             "empty_psk": "empty-pre-shared-key", "psk_only_13": "psk-only-client-dtls13-certificate-fallback"}
+IP_NAMES = {"192.0.2.10": "ip4", "2001:db8::10": "ip6"}
+
+
+def name_ok(s):
+    """is the presented certificate valid for the client's configured ServerName? (empty name: no requirement)"""
+    n, c = s.get("sname", ""), s.get("scert", "")
+    if n in ("", "-"):
+        return True
+    if n in IP_NAMES:
+        return c == IP_NAMES[n]
+    return c == "dns"
 SITE_12C = "internal/flight/flight12/flight5handler.go initializeCipherSuite / flight3handler.go flight3Parse"
 SITE_12S = "internal/flight/flight12/flight4handler.go flight4Parse"
 
@@ -49,6 +68,15 @@ def lacking(s):
     r, t = s["rogue"], s["tamper"]
     if s["vc"] == "reject":
         return "VerifyConnection rejects"
+    if r == "server_name":
+        if not s["skip"] and not name_ok(s):
+            return "certificate (valid for %s) is not valid for the configured server name %s" % (s["scert"], s["sname"])
+        return None
+    if r == "empty_psk":
+        return "the peer knows no pre-shared key: the local callback returned an empty key for its unknown identity"
+    if r == "psk_only_13":
+        return ("the client was given a pre-shared key only; the DTLS 1.3 server neither knows it nor is asked for it "
+                "(certificate fallback against the system roots, no name check)")
     if r == "scheme_confusion":
         return ("signature not by the leaf key: the peer holds no private key of the %s certificate it presents, claims a "
                 "%s scheme and sends a signature computed from the public key for the empty digest" % (s["key"], s["claim"]))
@@ -121,15 +149,21 @@ def case_term(o):
     by_leaf = False if conf else r not in SIG_BAD
     # DTLS 1.3 picks an RSA-PSS scheme for an RSA-typed signer: validateSignatureAlgOID refuses it for other keys
     oid_ok = not (conf and s["claim"] == "rsa" and s["key"] != "rsa")
+    nm_ok = name_ok(s) and r not in SRV_NAME_BAD
+    nm_ip = s.get("sname", "") in IP_NAMES
+    empty = r == "empty_psk"
+    knows = r not in ("wrong_psk", "empty_psk")
+    if r == "psk_only_13":
+        psk = False
     if s["ver"] == 12 and s["honest"] == "client":
-        cfg = "(mk_ccfg %s %s %s %s)" % (cbool(s["skip"]), cbool(has_vpc), cbool(has_vc), cbool(psk))
+        cfg = "(mk_ccfg %s %s %s %s %s)" % (cbool(s["skip"]), cbool(has_vpc), cbool(has_vc), cbool(psk), cbool(nm_ip))
         v = [SUITE[s["suite"]],
              cbool(not psk), cbool(not psk), cbool(not psk),   # Certificate message, non-empty, parses
              "true",                                          # ServerKeyExchange (PSK variants carry an identity hint)
              cbool(r != "bad_scheme"), cbool(routine_ok),
-             cbool(r not in SRV_CHAIN_BAD), cbool(r not in SRV_NAME_BAD), cbool(r != "expired"), "true",
+             cbool(r not in SRV_CHAIN_BAD), cbool(nm_ok), cbool(r != "expired"), "true",
              cbool(vpc_ok), cbool(vc_ok),
-             cbool(r != "wrong_psk"), "true", cbool(fits), cbool(by_leaf)]
+             cbool(r != "wrong_psk"), "true", cbool(fits), cbool(not empty), cbool(knows), cbool(by_leaf)]
         return "(CClient12 %s (mk_sview %s) %s)" % (cfg, " ".join(v), ob)
     if s["ver"] == 12:
         given = client_given(s)
@@ -138,20 +172,23 @@ def case_term(o):
         v = [SUITE[s["suite"]], "true", cbool(given), "true", cbool(given),
              cbool(r != "bad_scheme"), cbool(routine_ok), cbool(r not in CLI_CHAIN_BAD),
              cbool(vpc_ok), cbool(vc_ok), cbool(r != "wrong_psk"), "true",
-             cbool(cert_msg), cbool(fits), cbool(by_leaf)]
+             cbool(cert_msg), cbool(fits), cbool(not empty), cbool(knows), cbool(by_leaf)]
         return "(CServer12 %s (mk_cview %s) %s)" % (cfg, " ".join(v), ob)
-    cfg = "(mk_cfg13 %s %s %s %s)" % (cbool(s["skip"]), POLICY[s["policy"]], cbool(has_vpc), cbool(has_vc))
+    cfg = "(mk_cfg13 %s %s %s %s %s %s)" % (cbool(s["skip"]), POLICY[s["policy"]], cbool(has_vpc), cbool(has_vc),
+                                            cbool(nm_ip), cbool(r == "psk_only_13"))
     if s["honest"] == "client":
         v = ["false", cbool(t != "no_cert_cv"), cbool(t != "empty_cert"), "true", cbool(t == ""),
              "true", cbool(routine_ok),
-             cbool(r not in SRV_CHAIN_BAD and r not in SRV_NAME_BAD and r != "expired"),
-             cbool(vpc_ok), cbool(vc_ok), "true", cbool(oid_ok), cbool(fits), cbool(by_leaf)]
+             cbool(r not in SRV_CHAIN_BAD and nm_ok and r != "expired"),
+             cbool(vpc_ok), cbool(vc_ok), "true", cbool(oid_ok), cbool(fits), cbool(by_leaf),
+             cbool(r not in SRV_CHAIN_BAD and r != "expired")]
     else:
         requested = s["policy"] > 0
         v = ["true", cbool(requested and t != "no_cert_cv"), cbool(r != "no_cert" and t != "empty_cert"), "true",
              cbool(requested and r != "no_cert" and t == ""),
              "true", cbool(routine_ok), cbool(r not in CLI_CHAIN_BAD),
-             cbool(vpc_ok), cbool(vc_ok), "true", cbool(oid_ok), cbool(fits), cbool(by_leaf)]
+             cbool(vpc_ok), cbool(vc_ok), "true", cbool(oid_ok), cbool(fits), cbool(by_leaf),
+             cbool(r not in CLI_CHAIN_BAD)]
     return "(CFlight13 %s (mk_pview %s) %s)" % (cfg, " ".join(v), ob)
 
 
@@ -176,7 +213,7 @@ def resume_term(c):
 
     def view(fin_arrives):
         # certificate-less client: ClientKeyExchange only; Finished correct whenever it is sent
-        return "(mk_cview %s true false false false false false false true true %s true false false false)" % (
+        return "(mk_cview %s true false false false false false false true true %s true false false true true false)" % (
             SUITE[c["suite"]], cbool(fin_arrives))
     return "(CSecond12 (mk_scfg %s false false) true %s %s true true %s)" % (
         POLICY[c["policy"]], view(c["fin"]), view(True), ob)
@@ -185,6 +222,12 @@ def resume_term(c):
 def site_of(s):
     if s["rogue"] == "scheme_confusion":
         return SITE_F45
+    if s["rogue"] == "server_name":
+        return SITE_NAME
+    if s["rogue"] == "empty_psk":
+        return SITE_EMPTYPSK
+    if s["rogue"] == "psk_only_13":
+        return SITE_PSKONLY
     if s["ver"] == 13:
         return SITE_F6
     return SITE_12C if s["honest"] == "client" else SITE_12S
@@ -270,8 +313,14 @@ def run(chk):
     out = vlib.out_path("c03")
     out_t = vlib.out_path("c03t")
     out_r = vlib.out_path("c03r")
+    # scenario psk_only_13 needs "a certificate the system roots accept": the process's system roots are the lab CA
+    sysroots = vlib.out_path("c03roots") + ".pem"
+    creds = open(os.path.join(vlib.OVERLAY_SRC, "root", "zz_verif_lab_creds_test.go")).read()
+    m = re.search(r"vPemCA = `(.*?)`", creds, re.S)
+    with open(sysroots, "w") as f:
+        f.write(m.group(1) if m else "")
     env = {"VERIF_SEED": chk.seed, "VERIF_TIER": chk.tier, "VERIF_OUT": out, "VERIF_OUT_TAMPER": out_t,
-           "VERIF_OUT_RESUME": out_r}
+           "VERIF_OUT_RESUME": out_r, "SSL_CERT_FILE": sysroots, "SSL_CERT_DIR": os.path.join(vlib.WORK, "no-such-dir")}
     ov, scratch, why = tamper_overlay(["c03", "c03t"])
     tamper_ran = False
     if ov is not None:
@@ -289,6 +338,7 @@ def run(chk):
     vlib.cleanup(out)
     vlib.cleanup(out_t)
     vlib.cleanup(out_r)
+    vlib.cleanup(sysroots)
     found = False
     if rc != 0:
         kind = vlib.classify_go_failure(o)
@@ -323,6 +373,11 @@ def run(chk):
             sig = {"monitor": bad.split(":")[0], "ver": s["ver"], "suite": s["suite"], "honest": s["honest"],
                    "rogue": s["rogue"], "tamper": s["tamper"]}
             extra = ""
+            if s["rogue"] in DEVIATION and s["rogue"] != "scheme_confusion":
+                sig = {"monitor": bad.split(":")[0], "deviation": DEVIATION[s["rogue"]]}
+                same = sorted(k["scn"]["id"] for k in cases if k["scn"]["rogue"] == s["rogue"] and lacking(k["scn"])
+                              and (k["cres"] if k["scn"]["honest"] == "client" else k["sres"]) == "ok")
+                extra = "; all such scenarios (%d): %s" % (len(same), " ".join(same))
             if s["rogue"] == "scheme_confusion":
                 sig = {"monitor": bad.split(":")[0], "deviation": "signature-scheme-confusion"}
                 msgs = sorted({"DTLS 1.%d %s" % (k["scn"]["ver"] - 10, (
